@@ -147,6 +147,17 @@ FAULTS += [
     (T.R_LITERAL_TEST, "log", ["lit", None]),
 ]
 
+# two-parameter functions: an ill-typed argument in either slot while the other slot holds every well-typed kind
+# (a literal, a singular query, a ValueType function) - the checker must look at every argument, whatever precedes it
+_GOOD_ARGS = [["lit", "abc"], ["lit", 1], A, ["call", "value", [NONSING[0]]], ["call", "length", [A]]]
+_BAD_ARGS = [NONSING[0], NONSING[1], ["call", "match", [A, ["lit", "a"]]], ["par", ["test", A]],
+             ["cmp", "==", A, ["lit", "x"]], ["not", ["test", A]]]
+for _fn in ("match", "search"):
+    for _good in _GOOD_ARGS:
+        for _bad in _BAD_ARGS:
+            FAULTS.append((T.R_ARG_KIND, "log", ["call", _fn, [_good, _bad]]))
+            FAULTS.append((T.R_ARG_KIND, "log", ["call", _fn, [_bad, _good]]))
+
 POSITIONS = ["top", "not", "and-left", "and-right", "or-left", "or-right", "paren", "not-paren", "nested-filter",
              "count-of-filter", "and-in-or", "paren-in-and"]
 
@@ -401,7 +412,7 @@ def t_random(seed, n):
 
 
 def tasks(tier, seed):
-    ts = [{"name": "faults", "fn": "t_faults"}, {"name": "ranges", "fn": "t_ranges"}, {"name": "long", "fn": "t_long"}]
+    ts = [{"name": "faults", "fn": "t_faults"}, {"name": "ranges", "fn": "t_ranges"}, {"name": "long", "fn": "t_long"}, {"name": "names", "fn": "t_names"}]
     ts += [{"name": "trees-%d" % k, "fn": "t_trees", "kw": {"shard": k, "nshards": 8}} for k in range(8)]
     n = 2500 if tier == "quick" else 40000
     for k in range(6):
@@ -411,6 +422,27 @@ def tasks(tier, seed):
     for k in range(4):
         ts.append({"name": "textfuzz-%d" % k, "fn": "t_textfuzz", "kw": {"seed": mix(seed, ID, "textfuzz", k), "n": 1200 if tier == "quick" else 20000}})
     return ts
+
+
+def t_names():
+    """every delicate member name as a quoted name selector (both quote styles, child and descendant segment, inside a list) and as
+    a string literal compared in a filter: all are well-formed RFC 9535 queries and must compile"""
+    from ..gen.docs import NASTY
+    stats = Stats()
+    rng = random.Random(23)
+    n = 0
+    for name in NASTY:
+        asts = [["q", "$", [["c", [["n", name]]]]], ["q", "$", [["d", [["n", name]]]]], ["q", "$", [["c", [["n", "a"], ["n", name]]]]],
+                ["q", "$", [["c", [["f", ["cmp", "==", ["q", "@", [["c", [["n", name]]]]], ["lit", name]]]]]]],
+                ["q", "$", [["c", [["f", ["call", "match", [["q", "@", []], ["lit", "a"]]]]]], ["c", [["n", name]]]]]]
+        for ast in asts:
+            for j in range(3):
+                text = Renderer(rng if j else None).query(ast, top=True)
+                expect_valid(stats, text, jsonpath.DEFAULT_ENV, {"text": text, "expect": "valid", "origin": "names", "name": name})
+                n += 1
+        stats.nt("names", name)
+    stats.subspaces.append({"name": "%d delicate member names x 5 query shapes x 3 spellings: must compile" % len(NASTY), "size": n, "exhaustive": True})
+    return stats
 
 
 def t_long():
